@@ -22,6 +22,7 @@ LEVEL_TEXT = (
     "`idx == len(grid)`); digitize_data writes column i of a fresh array from get_closest(param_grid[i], data[:, i]) "
     "for every i in range(data.shape[1]) and returns that array. Decides 'returns an element of that column's grid, "
     "element-wise, without IndexError' - NOT which element: nearest-ness, mid-points and idempotence are numerical."
+    " The output buffer's dtype must not be inherited from the data (an integer input would truncate the snapped values); when the snapping is delegated to helpers the front end cannot read, the element verdicts are withdrawn (undecided) and the dtype / searchsorted-side rules stay armed."
 )
 TECHNIQUE = "AST/reaching-definitions provenance rule + clamp idiom table"
 
